@@ -1,0 +1,47 @@
+//go:build verif
+
+package trees
+
+import "github.com/EliCDavis/vector/vector3"
+
+// VerifCell is one cell of an OctTree as seen by the verification harness:
+// the bounds used for pruning, the original indices of the elements stored in
+// the cell itself and the positions (in the dump) of its child cells.
+type VerifCell struct {
+	Min, Max vector3.Float64
+	Elements []int
+	Children []int
+}
+
+// VerifCells dumps the tree in pre-order (the root is entry 0). It only reads
+// the structure; nothing is cached or modified.
+func (ot *OctTree) VerifCells() []VerifCell {
+	cells := make([]VerifCell, 0)
+	if ot == nil {
+		return cells
+	}
+	var walk func(c *OctTree) int
+	walk = func(c *OctTree) int {
+		at := len(cells)
+		cell := VerifCell{
+			Min:      c.bounds.Min(),
+			Max:      c.bounds.Max(),
+			Elements: make([]int, 0, len(c.elements)),
+			Children: make([]int, 0, len(c.children)),
+		}
+		for _, e := range c.elements {
+			cell.Elements = append(cell.Elements, e.originalIndex)
+		}
+		cells = append(cells, cell)
+		for _, child := range c.children {
+			if child == nil {
+				continue
+			}
+			ci := walk(child)
+			cells[at].Children = append(cells[at].Children, ci)
+		}
+		return at
+	}
+	walk(ot)
+	return cells
+}
